@@ -605,14 +605,11 @@ def form_greenhouse(index, rep):
     ok = len(calls) == 1 and len(calls[0].args) == 4
     if ok:
         it2 = Interp()
-        env2 = {"constants_for_params": Path(("c",)), "self": Obj(None, {}, "self")}
-        for st in walk_no_nested(ga):
-            if isinstance(st, ast.Assign) and isinstance(st.targets[0], ast.Name) and st.targets[0].id == norm_src(calls[0].args[3]):
-                try:
-                    env2[st.targets[0].id] = it2.eval(st.value, env2)
-                except Unsupported:
-                    pass
-        v = env2.get(norm_src(calls[0].args[3]))
+        env2 = {ga.args.args[1].arg: Path(("c",)), "self": Obj(None, {}, "self")}
+        try:
+            v = it2.eval(_Inliner(ga).at(calls[0]).expr(calls[0].args[3]), env2)     # the coefficient, whether computed into a local or in place
+        except Unsupported:
+            v = None
         ok = isinstance(v, Rat) and v == keep("c", "CROPS") * (Rat.const(1) - K_(("c", "WASTE_RETAIL")) / Rat.const(100))
         ok = ok and [norm_src(a) for a in calls[0].args[:3]] == ["outdoor_crops.months_cycle", "outdoor_crops.all_months_reductions",
                                                                   "outdoor_crops.OG_KCAL_EXPONENT"]
